@@ -818,9 +818,13 @@ func raceWorkload(r *vlib.Run, rep int, rng *rand.Rand) bool {
 				case 11:
 					t.WalkDeleted(q, func(v interface{}) bool { i, _ := v.(int); return i%2 == 0 }, func(interface{}) { n++ })
 				case 12:
-					nd := t.Get(p)
+					// Structure accessors on leaves AND on branch nodes (a prefix of a
+					// stored path, or the root), while others link and unlink children.
+					nd := t.Get(p[:grng.Intn(len(p)+1)])
 					nd.IsBranch()
-					nd.Children()
+					for k := range nd.Children() {
+						n += len(k)
+					}
 					nd.Value()
 				default:
 					_ = t.String()
